@@ -104,7 +104,7 @@ func buildValue(spec *kindSpec, codec string, s *src) (reflect.Value, *filler) {
 
 func genRT(t *rapid.T) RTCase {
 	s := recSrc(t)
-	spec := &kinds[kindPick[s.N(len(kindPick))]]
+	spec := &kinds[kindPick[s.Pick(len(kindPick))]]
 	c := RTCase{Kind: spec.name}
 	c.Codec = spec.codecs[s.N(len(spec.codecs))]
 	switch {
@@ -123,7 +123,7 @@ func genRT(t *rapid.T) RTCase {
 // rtValue rebuilds (kind header draws included) the value of a case.
 func rtValue(c RTCase) (*kindSpec, reflect.Value, *filler) {
 	s := playSrc(c.Tape)
-	s.N(len(kindPick))
+	s.Pick(len(kindPick))
 	spec := kindByName[c.Kind]
 	if spec == nil {
 		return nil, reflect.Value{}, nil
